@@ -82,3 +82,11 @@ func VerifServeConn(conn net.Conn, requestHandler raftio.MessageHandler,
 	}
 	t.serveConn(conn)
 }
+
+// VerifSetTimeouts sets the idle timeout and the collection interval (both in
+// ticks) of a chunk tracker, so that a simulation can cover runs that are much
+// longer than the timeout.
+func (c *Chunk) VerifSetTimeouts(timeout uint64, gcTick uint64) {
+	c.timeout = timeout
+	c.gcTick = gcTick
+}
